@@ -4,6 +4,7 @@ V = os.path.dirname(os.path.dirname(os.path.abspath(__file__)))
 props = [json.loads(l) for l in open(os.path.join(V, "properties.jsonl"))]
 claims = json.load(open(os.path.join(V, "tools", "claims.json")))
 groups = json.load(open(os.path.join(V, "tools", "groups.json")))
+posts = json.load(open(os.path.join(V, "tools", "post_checks.json")))
 checks = []
 na = []
 for p in props:
@@ -19,7 +20,7 @@ for p in props:
         replay_cmd_template="./check %s --replay {path}" % p["id"],
         engine="pyvc" if groups.get(p["id"], "main") == "main" else "pyvc-%s" % groups[p["id"]],
         level_claimed=dict(category="proof", text=c["text"], design_ref="DESIGN.md section 5, %s" % p["id"]),
-        level_note=c["note"],
+        level_note=c["note"] + ("; BOUNDED native post-checks on the real code (never counted as proved): " + ", ".join(sorted(set(x["script"] for x in posts[p["id"]]))) if p["id"] in posts else ""),
         technique="contract-based deductive verification: sidecar contracts on the real functions, VCs generated from the /repo AST (pyvc) and discharged by z3/cvc5",
     ))
 m = dict(
